@@ -91,6 +91,15 @@ class IsNamePresent(ast.NodeVisitor):
             self.present = True
 
 
+def _row_elts(row, default):
+    """Element types of a row of a matrix type annotation"""
+    if isinstance(row, ast.Tuple):
+        return row.elts
+    if isinstance(row, ast.Subscript) and isinstance(row.slice, ast.Tuple):
+        return row.slice.elts
+    return default
+
+
 @dataclass
 class NameValReplacer(ast.NodeTransformer):
     """Replace all Name with name_id with the given val"""
@@ -164,8 +173,7 @@ class ASTRewriter(ast.NodeTransformer):
             else:
                 outer_tuple = gtype.slice
                 max_i = len(outer_tuple.elts) - 1
-                inner_tuple = outer_tuple.elts
-                max_j = len(inner_tuple) - 1
+                max_j = len(_row_elts(outer_tuple.elts[0], outer_tuple.elts)) - 1
 
             # Create the IfExp structure
             return create_if_exp(nname, iname, max_i, jname, max_j)
@@ -374,7 +382,13 @@ class ASTRewriter(ast.NodeTransformer):
                         ),
                         slice=ast.Constant(value=i, kind=None),
                     )
-                    for i in range(len(_sval.slice.elts))
+                    for i in range(
+                        len(
+                            _row_elts(
+                                _sval.slice.elts[arg.slice.value], _sval.slice.elts
+                            )
+                        )
+                    )
                 ]
         elif isinstance(arg, ast.Name):
             # If it's a name, is in env and is a Tuple, return elements
